@@ -568,7 +568,7 @@ func histClass(s string) string {
 // C06 entry point.
 func C06(c *core.Ctx) {
 	e := &env{c: c}
-	c.Rep.Bound = "pairs: all filters and names of 1..4 levels over {a,b,empty,+,#} and of 1..3 levels over {a,$x,x$,$,+,#,+$,#$} (not beginning with $); histories: 2 subscribers x filters x QoS 0-2 + retained updates, all sequences to depth 3 and BFS with de-duplication to depth 5 (quick) / all sequences to depth 4 and BFS to fixpoint or depth 8 (thorough)"
+	c.Rep.Bound = "pairs: all filters and names of 1..4 levels over {a,b,empty,+,#} and of 1..3 levels over {a,$x,x$,$,+,#,+$,#$,a+,a#} (not beginning with $); histories: 2 subscribers x filters x QoS 0-2 + retained updates, all sequences to depth 3 and BFS with de-duplication to depth 5 (quick) / all sequences to depth 4 and BFS to fixpoint or depth 8 (thorough)"
 	c.Rep.Rule = "ENUM over all filter/name pairs (each valid filter alone in a fresh real MemTopics, every name, subscription and publish QoS; invalid filters must be rejected without effect; same for the retained relation) + HIST over subscribe/unsubscribe/retain histories compared with refmatch after every history; non-trivial = pairs that match / distinct model states"
 	if c.Replay != nil {
 		fmt.Printf("replay %s\n  %s\n  input: %s\n", c.Replay.Scenario, c.Replay.Message, string(c.Replay.Input))
@@ -579,7 +579,7 @@ func C06(c *core.Ctx) {
 	c.Rep.Scenarios++
 	// '$' is an ordinary character except at the very beginning of a topic: levels that
 	// begin or end with it below the first level, and wildcards with a '$' stuck to them
-	pairsOver(e, []string{"a", "$x", "x$", "$", "+", "#", "+$", "#$"}, 3)
+	pairsOver(e, []string{"a", "$x", "x$", "$", "+", "#", "+$", "#$", "a+", "a#"}, 3)
 	c.Rep.Scenarios++
 	filters := []string{"a", "a/b", "a/+", "a/#", "#", "+/b"}
 	rnames := []string{"a", "a/b", "b"}
